@@ -1,12 +1,165 @@
+/-
+  C13 — Everything the library emits is valid against the official SAML schemas.
+
+  The claim is PARTIAL by design (DESIGN.md section 6, C13): the option logic of the `create_*`
+  builders is not modelled.  What is proved, for all inputs:
+
+  * the validator core: the derivative matcher used for XSD content models decides membership in
+    the declarative regular language (`C13_derivative_correct`, `C13_content_iff`,
+    `C13_complexPre_content`), accepted documents have pairwise different `xs:ID`s
+    (`C13_valid_ids_unique`), and the lexical check of `xs:boolean` is exactly the four literals
+    (`C13_boolean_lexical` — "True" is not among them);
+  * the order part of validity for the serialiser model (`C13_order_partial`): an element class
+    whose regenerated table row is `orderCompat` with the regenerated XSD content model serialises
+    EVERY instance within the class's own cardinalities (any number of items in unbounded members)
+    to a child sequence the content model accepts; `C13_order_table` checks `orderCompat` — and
+    that the row really is tied to the content model the validator uses — for all rows of the
+    regenerated class table that are claimed (`decide +kernel` on the two regenerated tables);
+    `C13_order_table_valid` combines the two.
+
+  The property at full strength (`C13_full`) quantifies over the builders themselves; it is
+  decided by the correspondence run on the documents actually produced (the driver evaluates
+  `specDoc`, i.e. the same `Validate.valid`, on every output).
+-/
 import PysamlModel.Model.Validate
 import PysamlModel.Model.ClassOrder
 import PysamlModel.Spec.C13
+import PysamlModel.Proofs.C13Regex
+import PysamlModel.Proofs.C13Order
 import PysamlModel.Gen.Schema
 import PysamlModel.Gen.ClassRows
 
 namespace C13
 open Validate
 
-theorem C13_placeholder : True := trivial
+/-- The matcher implements regular-language membership, for every expression, every symbol
+    interpretation and every word. -/
+theorem C13_derivative_correct {σ α : Type} (sat : σ → α → Bool) (r : Re σ) (w : List α) :
+    Re.matches sat r w = true ↔ Re.Lang sat r w :=
+  Re.matches_iff r w
+
+/-- The content-model check of the validator is membership of the child-name sequence in the
+    language of the type's content model. -/
+theorem C13_content_iff (re : Re Sym) (kids : List XNode) :
+    contentOk re kids = true ↔ Re.Lang Sym.sat re (kids.map XNode.name) :=
+  Re.matches_iff re _
+
+/-- Whenever the validator goes on to the children of a complex-typed element, their names form a
+    word of the content model (and character data is blank unless the type is mixed). -/
+theorem C13_complexPre_content (S : Schema) (T : TypeDef) (attrs : List (QN × List Char)) (text : List Char)
+    (kids : List XNode) (ids : Ids) (re : Re Sym)
+    (h : complexPre S T false attrs text kids = .ok (ids, some re)) :
+    ∃ mixed, T.content = .elems mixed re ∧ Re.Lang Sym.sat re (kids.map XNode.name) ∧
+      (mixed = false → text.all Lex.isWs = true) ∧ requiredOk T attrs = true := by
+  unfold complexPre at h
+  simp only [bind, Except.bind, pure, Except.pure] at h
+  split at h
+  · cases h
+  next ids1 _ =>
+    split at h
+    · cases h
+    next hreq =>
+      simp only [Bool.false_eq_true, if_false] at h
+      split at h
+      · split at h
+        · cases h
+        · split at h <;> cases h
+      · split at h
+        · cases h
+        · split at h <;> cases h
+      next mixed re' hcont =>
+        split at h
+        · cases h
+        next htext =>
+          split at h
+          · cases h
+          next hc =>
+            cases h
+            refine ⟨mixed, hcont, ?_, ?_, ?_⟩
+            · exact (C13_content_iff re kids).mp (by simpa using hc)
+            · intro hm
+              subst hm
+              simpa using htext
+            · simpa using hreq
+
+/-- An accepted document has pairwise different `xs:ID` values and a declared root. -/
+theorem C13_valid_ids_unique (S : Schema) (n : XNode) (h : valid S n = true) :
+    ∃ d ids, S.global? n.name = some d ∧ vElem S d n = .ok ids ∧ nodup ids = true := by
+  unfold valid validate at h
+  split at h
+  next hv =>
+    split at hv
+    · cases hv
+    next d hd =>
+      simp only [bind, Except.bind] at hv
+      split at hv
+      · cases hv
+      next ids hids =>
+        by_cases hn : nodup ids = true
+        · exact ⟨d, ids, hd, hids, hn⟩
+        · simp [hn, throw, throwThe, MonadExceptOf.throw] at hv
+  · cases h
+
+/-- `xs:boolean` is exactly the four XSD literals. -/
+theorem C13_boolean_lexical (s : List Char) :
+    Lex.booleanOk s = true ↔ s = ['t', 'r', 'u', 'e'] ∨ s = ['f', 'a', 'l', 's', 'e'] ∨ s = ['1'] ∨ s = ['0'] := by
+  unfold Lex.booleanOk
+  have e1 : "true".toList = ['t', 'r', 'u', 'e'] := by decide
+  have e2 : "false".toList = ['f', 'a', 'l', 's', 'e'] := by decide
+  have e3 : "1".toList = ['1'] := by decide
+  have e4 : "0".toList = ['0'] := by decide
+  rw [e1, e2, e3, e4]
+  simp only [Bool.or_eq_true, beq_iff_eq, or_assoc]
+
+/-- **Order part of validity for the serialiser model** (`tagsOf` mirrors
+    `SamlBase._add_members_to_element_tree`): if a class row is `orderCompat` with a content model,
+    every instance that respects the class's own cardinalities — whatever the number of items in its
+    unbounded members — serialises to a child sequence the content model accepts, i.e. the
+    specification `specOrder` (the `contentOk` test of the validator) holds of the model's output. -/
+theorem C13_order_partial (ps : List Particle) (ms : List Member) (counts : List Nat)
+    (hc : orderCompat ps ms = true) (hi : instOk ms counts = true) :
+    specOrder ps (tagsOf ms counts) = true :=
+  (Re.matches_iff _ _).mpr (order_lang ps ms counts hc hi)
+
+/-- Every claimed row of the regenerated class table is `orderCompat` with the content model of
+    its element in the regenerated schema, and `ps` IS that content model (`particlesOf`). -/
+theorem C13_order_table :
+    Gen.ClassRows.rows.all (fun r => particlesOf Gen.Schema.schema r.elem r.ps && orderCompat r.ps r.members) = true := by
+  decide +kernel
+
+/-- For every claimed element class of saml / samlp / md / xmldsig / xmlenc and every instance
+    within the class's cardinalities, the serialised child sequence passes the content-model check
+    of the type the validator assigns to that element. -/
+theorem C13_order_table_valid (r : ClassRow) (hr : r ∈ Gen.ClassRows.rows) (counts : List Nat)
+    (hi : instOk r.members counts = true) :
+    particlesOf Gen.Schema.schema r.elem r.ps = true ∧ specOrder r.ps (tagsOf r.members counts) = true := by
+  have h := List.all_eq_true.mp C13_order_table r hr
+  simp only [Bool.and_eq_true] at h
+  exact ⟨h.1, C13_order_partial r.ps r.members counts h.2 hi⟩
+
+/-- The property at full strength, for an emitter (the builders; NOT modelled): every emitted
+    document is valid.  Not proved; decided per produced document by the correspondence run. -/
+def C13_full (S : Schema) {Input : Type} (emit : Input → XNode) : Prop :=
+  ∀ i, valid S (emit i) = true
+
+/-! ## Non-vacuity -/
+
+private def satN (s : Nat) (x : Nat) : Bool := s == x
+-- (a b? c*) accepts "a c c", rejects "a b b"
+example : Re.matches satN (Re.seqL [Re.sym 1, Re.rep (Re.sym 2) 0 (some 1), Re.rep (Re.sym 3) 0 none]) [1, 3, 3] = true := by decide
+example : Re.matches satN (Re.seqL [Re.sym 1, Re.rep (Re.sym 2) 0 (some 1), Re.rep (Re.sym 3) 0 none]) [1, 2, 2] = false := by decide
+example : Re.Lang satN (Re.seq (Re.sym 1) (Re.star (Re.sym 3))) [1, 3] :=
+  Re.Lang.seq (Re.Lang.sym rfl) (by simpa using Re.Lang.starCons (Re.Lang.sym (s := 3) (x := 3) rfl) Re.Lang.starNil)
+
+-- a row in XSD order is compatible, a swapped row is not; hypotheses of C13_order_partial are satisfiable
+private def psEx : List Particle := [.leaf [.el 7 0] 1 (some 1), .leaf [.el 8 1] 0 (some 1), .leaf [.el 9 2, .el 10 3] 0 none]
+private def msEx : List Member := [⟨⟨5, 7⟩, 1, some 1⟩, ⟨⟨5, 8⟩, 0, some 1⟩, ⟨⟨5, 9⟩, 0, none⟩, ⟨⟨5, 10⟩, 0, none⟩]
+example : orderCompat psEx msEx = true := by decide
+example : instOk msEx [1, 0, 3, 2] = true := by decide
+example : specOrder psEx (tagsOf msEx [1, 0, 3, 2]) = true := by decide
+example : orderCompat psEx [⟨⟨5, 8⟩, 0, some 1⟩, ⟨⟨5, 7⟩, 1, some 1⟩] = false := by decide
+example : specOrder psEx (tagsOf [⟨⟨5, 8⟩, 0, some 1⟩, ⟨⟨5, 7⟩, 1, some 1⟩] [1, 1]) = false := by decide
+example : Gen.ClassRows.rows.length > 40 := by decide
+example : Lex.booleanOk ['T', 'r', 'u', 'e'] = false := by decide
 
 end C13
